@@ -22,9 +22,12 @@ ZA    == ZApex @@ (<<"a", "A">> :> R(600, {<<1>>}))
 ZC    == ZApex @@ (<<"a", "CNAME">> :> R(300, {<<1>>})) @@ (<<"a", "NSEC">> :> R(300, {<<1>>}))
 ZW    == (<<"@", "SOA">> :> R(300, {<<65535, 65535>>})) @@ (<<"@", "NS">> :> R(300, {<<1>>}))
            @@ (<<"b.a", "A">> :> R(300, {<<1>>, <<2>>})) @@ (<<"b.a", "RRSIG/A">> :> R(300, {<<1>>}))
-GenInitZones == {ZApex, ZA, ZC, ZW}
+\* two RRSIG rdatasets (different covered types) next to their data at one owner
+ZS    == ZApex @@ (<<"a", "A">> :> R(300, {<<1>>})) @@ (<<"a", "RRSIG/A">> :> R(300, {<<1>>}))
+           @@ (<<"a", "RRSIG/NS">> :> R(300, {<<1>>, <<2>>}))
+GenInitZones == {ZApex, ZA, ZC, ZW, ZS}
 GenInitSmall == {ZA, ZC}
-GenInitMid == {ZA, ZC, ZW}
+GenInitMid == {ZA, ZC, ZW, ZS}
 GenInitEmpty == {<<>>}
 GenInitC == {ZC}
 GenSerials == {<<0, 1>>, <<32768, 0>>}
